@@ -188,12 +188,16 @@ EDGE_BODIES = {
     "angle-nan": "float big = 10000000000.0f; for (int i = 0; i < 12; i = i + 1) { big = big * big; } ry(a, big - big);",
     "angle-negative-inf": "float big = 10000000000.0f; for (int i = 0; i < 12; i = i + 1) { big = big * big; } rz(r[1], 0.0f - big);",
     "angle-large-finite": "rx(a, 123456.5f);",
+    # (seed C05-4) the printed angle is the applied angle for whole numbers, multiples of ten, tiny and negative values alike
+    "angle-grid-whole": "rx(a, 10.0f); ry(a, 20.0f); rz(a, 100.0f); rx(a, 0.0f - 30.0f); ry(a, 1.0f); rz(a, 1000.0f); rx(a, 0.0f);",
+    "angle-grid-fraction": "rx(a, 2.5f); ry(a, 10.5f); rz(a, 0.000001f); rx(a, 0.0f - 0.5f); ry(a, 100.25f); rz(a, 3.141593f); rx(a, 1000000.0f);",
+    "angle-grid-computed": "float st = 2.5f; for (int i = 0; i < 9; i = i + 1) { rx(a, st * (float) i); ry(r[0], 10.0f * (float) i); }",
     "angle-int-through-type-parameter": "G<int> g = new G<int>(); g.rot(3);",
     "angle-float-through-type-parameter": "G<float> g = new G<float>(); g.rot(0.5f);",
 }
 EDGE_THETA = {"angle-int-through-type-parameter": 3.0, "angle-float-through-type-parameter": 0.5, "angle-large-finite": 123456.5}
 EDGE_NQ = {"untaken-branch-declares-two": 5, "taken-branch-declares-two": 7, "alias-declaration": 5, "alias-declaration-in-loop": 5, "cx-index-pairs": 5, "angle-large-finite": 5}     # pad, a, r[0], r[1], o.q
-EDGE_MUST_RUN = {"untaken-branch-declares-two", "taken-branch-declares-two", "alias-declaration", "alias-declaration-in-loop", "cx-index-pairs", "angle-large-finite", "angle-float-through-type-parameter", "angle-int-through-type-parameter"}
+EDGE_MUST_RUN = {"angle-grid-whole", "angle-grid-fraction", "angle-grid-computed", "untaken-branch-declares-two", "taken-branch-declares-two", "alias-declaration", "alias-declaration-in-loop", "cx-index-pairs", "angle-large-finite", "angle-float-through-type-parameter", "angle-int-through-type-parameter"}
 
 
 def edge_programs():
